@@ -25,6 +25,7 @@ import (
 	"fmt"
 	"io"
 	"net/http"
+	"net/url"
 	"strconv"
 	"strings"
 	"time"
@@ -645,6 +646,8 @@ func (s *S3Proxy) UploadPartCopy(ctx context.Context, input *s3.UploadPartCopyIn
 		input.SSECustomerKeyMD5 = nil
 	}
 
+	input.CopySource = encodeCopySource(input.CopySource)
+
 	output, err := s.client.UploadPartCopy(ctx, input)
 	if err != nil {
 		return s3response.CopyPartResult{}, handleError(err)
@@ -1116,7 +1119,7 @@ func (s *S3Proxy) CopyObject(ctx context.Context, input s3response.CopyObjectInp
 		&s3.CopyObjectInput{
 			Metadata:                       input.Metadata,
 			Bucket:                         input.Bucket,
-			CopySource:                     input.CopySource,
+			CopySource:                     encodeCopySource(input.CopySource),
 			Key:                            input.Key,
 			CacheControl:                   input.CacheControl,
 			ContentDisposition:             input.ContentDisposition,
@@ -1538,6 +1541,25 @@ func (s *S3Proxy) ListBucketsAndOwners(ctx context.Context) ([]s3response.Bucket
 	}
 
 	return res.Buckets, nil
+}
+
+// encodeCopySource url-encodes the copy source again: the front end hands it over
+// decoded, and the endpoint decodes what it receives. Forwarded as it was, a key with
+// %, + or ? named another object there (pct%41 -> pctA, plus+sign -> "plus sign").
+func encodeCopySource(src *string) *string {
+	if src == nil {
+		return nil
+	}
+	source, version := strings.TrimPrefix(*src, "/"), ""
+	if i := strings.LastIndex(source, "?versionId="); i >= 0 {
+		source, version = source[:i], source[i:]
+	}
+	segments := strings.Split(source, "/")
+	for i, seg := range segments {
+		segments[i] = strings.ReplaceAll(url.QueryEscape(seg), "+", "%20")
+	}
+	enc := strings.Join(segments, "/") + version
+	return &enc
 }
 
 func handleError(err error) error {
